@@ -167,6 +167,20 @@ def run(check):
                         src, (e.get("data") or {}).get("raw"), why)))
         return vs
 
+    # (e) tagged members (wait-optional also inside a one-of option, soft-optional, one-of, or-disabled) in the input of a step,
+    # with both completion orders of their sources forced: the consumer's logged input must be the reference value
+    from . import c15
+    for j in range(check.pick(70, 700)):
+        g, trig = c15.build(7 * j + (6 if j % 2 else j % 7), check)
+        if not any(s_.name == "C" for s_ in g["program"].steps) or g.get("logged_outputs"):
+            continue
+        inp = ref.normalise_input(g["program"].input_schema, g["input"])
+        r0 = ref.RefSem(g["program"], g["scripts"], inp).result()
+        if not r0["avail"] and r0["pending"]:
+            continue
+        case, sem = runfam.build_case("c02-t%04d" % j, g, **({"triggers": trig} if trig else {}))
+        gates_of[case["id"]] = []
+        items.append((case, sem, g))
     # (d) two workflow trees that use the same sub-workflow file name with different contents, prepared and run one after the
     # other through one step registry: every run's values must come from its own files
     from ..model import Step
